@@ -80,6 +80,10 @@ func main() {
 		for i, fd := range p.Inits {
 			inits = append(inits, translateFunc(p, fmt.Sprintf("%s.init#%d", dir, i), fd, true))
 		}
+		if err := exportedFuncVars(p); err != nil {
+			fmt.Fprintln(os.Stderr, "effgen:", err)
+			os.Exit(1)
+		}
 		names := make([]string, 0, len(p.Funcs))
 		for n := range p.Funcs {
 			names = append(names, n)
